@@ -23,11 +23,7 @@ func genBig(r *Rand, k int) Input {
 	case 0, 1:
 		n = r.Range(516, 700)
 	case 2:
-		if k%10 == 2 {
-			n = r.Range(1030, 1500)
-		} else {
-			n = r.Range(520, 1100)
-		}
+		n = r.Range(1010, 1500)
 	default:
 		n = r.Range(60, 400)
 	}
@@ -50,7 +46,11 @@ func genBig(r *Rand, k int) Input {
 	two := r.Chance(1, 3)
 	if two {
 		nw = r.Range(n/4, 3*n/4)
-		in.Specs = append(in.Specs, "V/"+pick(r, []string{"", "v.*", "v[0-9]*"}))
+		vpart := pick(r, []string{"", "v.*", "v[0-9]*"}) // the wallet manager reads "V/" as: the account named ""
+		if n > 1000 {
+			vpart = "v.*"
+		}
+		in.Specs = append(in.Specs, "V/"+vpart)
 	}
 	in.Ranges = append(in.Ranges, AcctRange{First: first, Count: nw, Wallet: w, Prefix: sp.prefix})
 	if two {
@@ -83,8 +83,8 @@ func genBig(r *Rand, k int) Input {
 	}
 	var classes []class
 	for i := 0; i+1 < len(cuts); i++ {
-		kind := 0 // active
-		if i > 0 || r.Chance(1, 5) {
+		kind := 0 // the first class is active: the answers have something to lose
+		if i > 0 {
 			kind = r.Intn(6)
 		}
 		classes = append(classes, class{first + cuts[i], cuts[i+1] - cuts[i], kind})
@@ -188,8 +188,8 @@ func genBig(r *Rand, k int) Input {
 		return op
 	}
 
-	// the constructor's refresh: healthy but for one case in eight
-	if r.Chance(1, 8) {
+	// the constructor's refresh: healthy but for one case in eight of the smaller installations
+	if n <= 700 && r.Chance(1, 8) {
 		in.Ops = append(in.Ops, refresh(pick(r, []int{1, 3, 4, 5, 9})))
 	} else {
 		in.Ops = append(in.Ops, refresh(0))
